@@ -694,6 +694,50 @@ fn race_window(sh: &Rc<Shared>) {
     }
 }
 
+/// Worker-side progress at a point where the accept loop does not hold the waker-queue lock
+/// although it is about to reset the queue (only reachable when that code is changed).
+pub fn drain_window(sh: &Rc<Shared>) {
+    let n = sh.drain_windows.get() + 1;
+    sh.drain_windows.set(n);
+    let win = (1u64 << 40) + n;
+    for _ in 0..4 {
+        let mut en: Vec<(Action, u32)> = Vec::new();
+        {
+            let conns = sh.conns.borrow();
+            for (c, r) in conns.iter().enumerate() {
+                if let Some(g) = &r.gate {
+                    if !g.open.get() {
+                        en.push((Action::RaceRelease(win, c), 3));
+                    }
+                }
+            }
+        }
+        if sh.ls_dirty.get() {
+            en.push((Action::RaceTick(win), 6));
+        }
+        let Some(a) = sh.chooser(|ch| ch.choose_nested(&en, 3, 4)) else { return };
+        match a {
+            Action::RaceRelease(_, c) => {
+                let gate = sh.conns.borrow()[c].gate.clone();
+                if let Some(g) = gate {
+                    g.open.set(true);
+                    if let Some(w) = g.waker.borrow_mut().take() {
+                        w.wake();
+                    }
+                    sh.ls_dirty.set(true);
+                    sh.ctx(|ctx| ev!(ctx, "drain window: release c{c}"));
+                }
+            }
+            Action::RaceTick(_) => RACE_TICK.with(|t| {
+                if let Some(f) = t.borrow().as_ref() {
+                    f();
+                }
+            }),
+            _ => {}
+        }
+    }
+}
+
 /// The accept thread and the workers run concurrently with the server's Stop handler: between
 /// its wake-up of the accept thread and its messages to the workers anything may happen.
 pub fn stop_window(sh: &Rc<Shared>) {
